@@ -824,7 +824,80 @@ func runTopics(p c17Params, res *runner.Result) {
 			return
 		}
 	}
+	if !runTopicsConcurrentClose(p, r, res) {
+		return
+	}
 	res.Sample = map[string]any{"params": p, "systems": p.Count}
+}
+
+// runTopicsConcurrentClose: "Close can safely be called multiple times, even from different goroutines" - also while
+// the first Close is parked behind a publish that is in flight to another, slow subscriber. Two subscribers a and b; one
+// publish is started and is blocked sending (to a or to b, map order); 2-4 goroutines call a.Close() at once; b starts
+// receiving only after all of them were launched and given a moment. A panic in any Close (close of a closed channel,
+// close of a nil channel) is the violation; an actor that never finishes makes the case inconclusive here (the closed
+// systems above judge deadlocks).
+func runTopicsConcurrentClose(p c17Params, r *rng.R, res *runner.Result) bool {
+	for it := 0; it < 2*p.Count; it++ {
+		t := topics.New[int]()
+		a := t.Subscribe(false)
+		b := t.Subscribe(it%3 == 2)
+		nclose := 2 + r.Intn(3)
+		pause := time.Duration(50+r.Intn(2000)) * time.Microsecond
+		var started, panics int32
+		var firstPanic atomic.Value
+		pubStarted := make(chan struct{})
+		pubDone := make(chan struct{})
+		go func() {
+			defer close(pubDone)
+			close(pubStarted)
+			t.Publish(1)
+			t.Publish(2)
+		}()
+		<-pubStarted
+		time.Sleep(pause / 4) // let the publisher reach its send
+		var cwg sync.WaitGroup
+		for i := 0; i < nclose; i++ {
+			cwg.Add(1)
+			go func() {
+				defer cwg.Done()
+				defer func() {
+					if e := recover(); e != nil {
+						atomic.AddInt32(&panics, 1)
+						firstPanic.CompareAndSwap(nil, fmt.Sprint(e))
+					}
+				}()
+				atomic.AddInt32(&started, 1)
+				a.Close()
+			}()
+		}
+		bDone := make(chan struct{})
+		go func() {
+			defer close(bDone)
+			for atomic.LoadInt32(&started) < int32(nclose) {
+				time.Sleep(20 * time.Microsecond)
+			}
+			time.Sleep(pause) // the closers are now inside Close, the first one parked behind the publish to us
+			for range b.Channel() {
+			}
+		}()
+		fin := make(chan struct{})
+		go func() { cwg.Wait(); <-pubDone; b.Close(); <-bDone; close(fin) }()
+		select {
+		case <-fin:
+		case <-time.After(60 * time.Second):
+			res.Verdict, res.Msg = runner.Inconclusive, "concurrent-close system did not finish within the watchdog"
+			return false
+		}
+		res.Count("concurrent_close_systems", 1)
+		res.Count("concurrent_closes", int64(nclose))
+		res.NonTrivial = true
+		if n := atomic.LoadInt32(&panics); n > 0 {
+			res.Violate("subscription-close-panic", fmt.Sprintf("%d of %d concurrent Close calls of one subscription panicked while a publish to another subscriber was in flight: %v", n, nclose, firstPanic.Load()),
+				map[string]any{"params": p, "iteration": it, "closers": nclose})
+			return false
+		}
+	}
+	return true
 }
 
 // ---------------------------------------------------------------- global storage (one process per trial)
